@@ -515,7 +515,25 @@ fn strings(t: &mut Tab, prng: &mut Prng, thorough: bool) {
         for c in ['a', '\0', '\u{e9}', '\u{10ffff}', '\u{d7ff}'] {
             t.add("StringBuf.push_char", &["StringBuf.from", "StringBuf.push_string", "StringBuf.as_string"], "StringBuf",
                 "fn main(s: String, c: char) -> String { let b = StringBuf.from(s); b.push_char(c); b.push_string(s); b.as_string() }",
-                "S,c>S", format!("{} char-len{}", str_class(st), c.len_utf8()), vec![s(st), Arg::Ch(c)], None);
+                "S,c>S", format!("{} char-len{}", str_class(st), c.len_utf8()), vec![s(st), Arg::Ch(c)],
+                Some(format!("c10 {PW} stringbuf {} {}", xs(st), c as u32)));
+        }
+        // `==` on StringBuf (two locks in one statement) x aliasing classes: the same buffer twice (must not
+        // wait for itself: solo, short timeout), two buffers with equal / different contents, compared after
+        // one of them was appended to
+        let mark = t.out.len();
+        t.add("StringBuf.from", &["StringBuf.push_string"], "StringBuf.eq.alias",
+            "fn main(s: String) -> bool { let a = StringBuf.from(s); let b = a; b.push_string(s); a == b }", "S>b",
+            format!("{} ==same-buffer", str_class(st)), vec![s(st)], Some(format!("c10 {PW} sb_eq_alias {}", xs(st))));
+        t.add("StringBuf.from", &["StringBuf.as_string"], "StringBuf.eq.self",
+            "fn main(s: String) -> bool { let a = StringBuf.from(s); a == a && a.as_string() == s }", "S>b",
+            format!("{} ==same-name", str_class(st)), vec![s(st)], Some(format!("c10 {PW} sb_eq_alias {}", xs(st))));
+        t.solo_since(mark);
+        for other in ["", "a", "\u{e9}"].iter().map(|x| x.to_string()).chain([st.clone()]) {
+            t.add("StringBuf.from", &["StringBuf.push_string"], "StringBuf.eq",
+                "fn main(s: String, n: String) -> bool { let a = StringBuf.from(s); let b = StringBuf.from(n); let r = a == b; b.push_string(s); a.push_string(n); r && !(a == b && s != n) }",
+                "S,S>b", format!("{} ==other-{}", str_class(st), if other == *st { "equal" } else { str_class(&other) }),
+                vec![s(st), s(&other)], Some(format!("c10 {PW} sb_eq {} {}", xs(st), xs(&other))));
         }
     }
     t.add("StringBuf.new", &["StringBuf.as_string"], "StringBuf.new", "fn main() -> String { let b = StringBuf.new(); b.as_string() }",
